@@ -15,7 +15,7 @@ int main(int argc, char** argv)
         vrt::alias("lr", "m0", "wm");
         vrt::g_cell = vrt::CellStats();
         vrt::g_cell.throwsLeft = (int)x.param("maxthrows", 0);
-        LR* lr = x.make<LR>("lr", 0L);
+        LR* lr = x.make<LR>("lr", Cell(0L, Cell::Temp{}));
         static const std::vector<const char*> names{"modify", "read", "read2", "relay"};
         // relay bookkeeping (only touched by the thread holding the baton)
         auto holders = std::make_shared<int>(0);   // acquisition counter: a relay holder lets go only after a later acquisition
